@@ -38,8 +38,11 @@ func (c *BasicAuth) Apply(_ context.Context, req *http.Request) error {
 func (c *BasicAuth) Hash() []byte {
 	hash := sha256.New()
 
-	hash.Write(stringx.ToBytes(c.User))
-	hash.Write(stringx.ToBytes(c.Password))
+	// every part is followed by a separator, so that adjacent parts cannot run into each other
+	for _, part := range []string{c.User, c.Password} {
+		hash.Write(stringx.ToBytes(part))
+		hash.Write([]byte{0})
+	}
 
 	return hash.Sum(nil)
 }
